@@ -425,6 +425,9 @@ def check_property(prop, tier, seed):
     ok, msg, sha = regen_facts()
     if not ok:
         broken.append("translator: gofacts cannot translate the current tree: " + msg)
+    if getattr(mod, "FACTS_ERROR", ""):
+        # a property module's own translator (run at its import) refused the tree
+        broken.append("translator: " + mod.FACTS_ERROR)
 
     # 2. proofs
     obligations = theorem_names(prop)
@@ -439,6 +442,8 @@ def check_property(prop, tier, seed):
         for p in problems:
             broken.append("audit: " + p)
         discharged = [n for n in obligations if n in axioms and all(a in ALLOWED_AXIOMS for a in axioms[n])]
+        if getattr(mod, "FACTS_ERROR", ""):
+            discharged = []      # the theorems were checked against facts that are not those of the current tree
     hits = grep_forbidden()
     if hits:
         broken.append("audit: forbidden tokens: " + "; ".join(hits[:5]))
